@@ -122,6 +122,8 @@ const MAX_MSGS: usize = 400_000;
 const MODIFIED_US: u64 = 1_709_251_200_000_000; // 2024-03-01 00:00:00 UTC, the "file modified time" given to the converters
 const REF_US: u64 = 1_700_000_000_000_000; // reference time of a "first file" (only when the recipe asks for it)
 
+/// number of filters of the chain's filter stage: 10 from the JSON front end + 4 from the DLF front end
+const N_FILTERS: usize = 14;
 fn filters() -> Vec<adlt::filter::Filter> {
     let js = [
         r#"{"type":0,"ecu":"ECU1"}"#,
@@ -132,8 +134,26 @@ fn filters() -> Vec<adlt::filter::Filter> {
         r#"{"type":0,"mstp":3,"not":true}"#,
         r#"{"type":2,"payloadRegex":"(\\d+)\\s+(\\w+)","lifecycles":[1,2]}"#,
         r#"{"type":0,"verb_mstp_mtin":65,"ctid":"TC"}"#,
+        // patterns that fancy_regex cannot hand to the linear-time engine (look-around, backreference): matching can fail
+        // at RUN time (BacktrackLimitExceeded) depending on the payload text -- "abab.." from 18 repetitions on, "xxxx..",
+        // "xword word ..x".  All are anchored so that ordinary payloads fail fast (hitting the limit costs ~50 ms).
+        // They carry a context id (checked before the regex) so that only the generated verbose / logcat / genlog messages pay
+        // for the slow engine, not the 100 000 message histories.
+        r#"{"type":0,"ctid":"CTID","payloadRegex":"^(?i)(a|b|ab)*(?=c)"}"#,
+        r#"{"type":1,"not":true,"ctid":"LogC","payloadRegex":": (a|b|ab)*(?=c)"}"#,
     ];
-    js.iter().filter_map(|j| adlt::filter::Filter::from_json(j).ok()).collect()
+    let mut v: Vec<adlt::filter::Filter> = js.iter().filter_map(|j| adlt::filter::Filter::from_json(j).ok()).collect();
+    // the same kind of patterns through the DLF (dlt-viewer filter file) front end, incl. a backreference
+    let dlf = r#"<?xml version="1.0" encoding="UTF-8"?><dltfilter>
+<filter><type>0</type><enablefilter>1</enablefilter><enablecontextid>1</enablecontextid><contextid>GenL</contextid><enablepayloadtext>1</enablepayloadtext><enableregexp_Payload>1</enableregexp_Payload><ignoreCase_Payload>1</ignoreCase_Payload><payloadtext>^(a|b|ab)*(?=c)</payloadtext></filter>
+<filter><type>1</type><enablefilter>1</enablefilter><enablecontextid>1</enablecontextid><contextid>CTID</contextid><enablepayloadtext>1</enablepayloadtext><enableregexp_Payload>1</enableregexp_Payload><payloadtext>^x(\w+\s?)+(?&lt;!x)$</payloadtext></filter>
+<filter><type>2</type><enablefilter>1</enablefilter><enablecontextid>1</enablecontextid><contextid>CTID</contextid><enablepayloadtext>1</enablepayloadtext><enableregexp_Payload>1</enableregexp_Payload><payloadtext>^(\w)\1*(\w\w?)+(?=!)</payloadtext></filter>
+<filter><type>0</type><enablefilter>1</enablefilter><enablepayloadtext>1</enablepayloadtext><ignoreCase_Payload>1</ignoreCase_Payload><payloadtext>AbAb</payloadtext><enableapplicationid>1</enableapplicationid><applicationid>A.*</applicationid></filter>
+</dltfilter>"#;
+    if let Ok(fs) = adlt::filter::functions::filters_from_dlf(std::io::Cursor::new(dlf.as_bytes())) {
+        v.extend(fs.into_iter().filter(|f| f.payload_regex.is_some() || f.payload.is_some()));
+    }
+    v
 }
 
 fn plugin_cfgs() -> Vec<(&'static str, Value)> {
@@ -321,6 +341,7 @@ fn run_chain(ext: &str, bytes: &[u8], with_ref: bool, model: bool, start_index: 
     // ---- filters
     stage("filter", &mut fails, || {
         let fs = filters();
+        if fs.len() != N_FILTERS { panic!("harness: only {} of the {} filters could be constructed", fs.len(), N_FILTERS); }
         let mut n = 0usize;
         for m in &after_lc {
             for f in &fs {
@@ -517,12 +538,59 @@ fn weird_ti(rng: &mut Rng) -> u32 {
     let tyle = rng.below(8) as u32;
     if rng.chance(1, 10) { rng.next() as u32 } else { base | extra | tyle }
 }
+/// texts with many ways to be split by a pattern like (a|b|ab)* or (\\w\\w?)+ : 10..60 repetitions, both sides of the
+/// backtrack limit of fancy_regex (reached from ~15-18 repetitions on), with and without the character that lets it match
+fn backtrack_text(rng: &mut Rng) -> String {
+    let k = rng.range(10, 60) as usize;
+    let mut t = match rng.below(6) { 0 => "ab".repeat(k), 1 => "aB".repeat(k), 2 => "x".repeat(3 * k), 3 => format!("x{}x", "word ".repeat(k)), 4 => "ba".repeat(k), _ => "a".repeat(k) + &"b".repeat(k) };
+    match rng.below(5) { 0 => t.push('c'), 1 => t.push('!'), 2 => t.insert(0, ' '), _ => {} }
+    t
+}
+/// the grammar AROUND a recognised text shape: `parts` = (label, usual values); every part may be absent, empty,
+/// non-numeric, huge, in other digits, with a changed label, padded or doubled; junk before / behind
+fn shape_text(rng: &mut Rng, parts: &[(&str, &[&str])]) -> String {
+    let mut s = String::new();
+    if rng.chance(1, 10) { s.push_str(*rng.pick(&["x ", " ", "Version: ", "\u{feff}"])); }
+    for (label, vals) in parts {
+        let usual = *rng.pick(vals);
+        match rng.below(16) {
+            0 => {}                                                      // absent
+            1 => s.push_str(label),                                     // label only
+            2 => { s.push_str(label); s.push_str(*rng.pick(&["abc", "x.y", "-", "-1", "€", "1,5", ".", "1.", ".5", "NaN", "inf", "0x10"])); }
+            3 => { s.push_str(label); s.push_str(*rng.pick(&["99999999999999999999999999999999", "18446744073709551616", "4294967296", "99999999999999999999.99999999999", "1e400", "000000000000000000000000000001.5"])); }
+            4 => { s.push_str(label); s.push_str(*rng.pick(&["٣", "٣.٣", "１２"])); }
+            5 => { s.push_str(&label.to_uppercase()); s.push_str(usual); }
+            6 => { s.push_str(&label.replace(": ", ":").replace(", ", ",")); s.push_str(usual); }
+            7 => { s.push_str(label); s.push(' '); s.push_str(usual); s.push(' '); }
+            8 => { s.push_str(label); s.push_str(usual); s.push_str(label); s.push_str(usual); }
+            _ => { s.push_str(label); s.push_str(usual); }
+        }
+    }
+    if rng.chance(1, 10) { s.push_str(*rng.pick(&[" trailing", ",", ", git: x", "\n"])); }
+    s
+}
+const MUNIIC_CFG_SHAPE: [(&str, &[&str]); 3] = [("Version: ", &["20.48", "1.2", "0.0"]), (", git: ", &["123", "abc_1", "0"]), (", model hash: ", &["2874425776", "2944352002", "3", "0"])];
+const JOUR_SHAPE: [(&str, &[&str]); 4] = [("", &["2024/01/01", "x"]), (" ", &["10:00:00.000000", "y"]), (" ", &["123.456789", "0.0", "99999999999.999999"]), (" ", &["text", "a b c", ""])];
+/// every single deviation (absent / empty / non-numeric / huge) of every part of a shape from its usual text
+fn shape_deviations(parts: &[(&str, &[&str])]) -> Vec<String> {
+    let mut v = vec![parts.iter().map(|(l, vs)| format!("{}{}", l, vs[0])).collect::<String>()];
+    for i in 0..parts.len() {
+        for dev in 0..4 {
+            v.push(parts.iter().enumerate().map(|(j, (l, vs))| if j != i { format!("{}{}", l, vs[0]) } else { match dev { 0 => String::new(), 1 => l.to_string(), 2 => format!("{}x.y", l), _ => format!("{}99999999999999999999999999999999", l) } }).collect::<String>());
+        }
+    }
+    v
+}
 fn gen_verbose_payload(rng: &mut Rng, be: bool) -> (Vec<u8>, u8) {
     let n = rng.size(6) as usize;
     let mut p = vec![];
     for _ in 0..n {
         match rng.below(9) {
-            0 => { let l = rng.size(40) as usize; a_str(&mut p, &rand_text(rng, l), be, rng.chance(1, 2)) }
+            0 => {
+                // one in thirty strings is an ambiguous repetition (10..60 times) on which a backtracking regex engine may give up
+                if rng.chance(1, 30) { let t = backtrack_text(rng); a_str(&mut p, t.as_bytes(), be, rng.chance(1, 2)) }
+                else { let l = rng.size(40) as usize; a_str(&mut p, &rand_text(rng, l), be, rng.chance(1, 2)) }
+            }
             1 => { let l = rng.size(40) as usize; a_raw(&mut p, &rand_bytes(rng, l), be) }
             2 => { let t = rng.range(1, 4) as u32; a_num(&mut p, 0x40, t, rng.next(), be) }
             3 => { let t = rng.range(1, 5) as u32; a_num(&mut p, 0x20, t, rng.next(), be) }
@@ -823,7 +891,8 @@ fn gen_dlt(g: &str, seed: u64, small: bool) -> Vec<u8> {
             "can" => if rng.chance(3, 4) { 5 } else { 0 },
             "lc" => if rng.chance(1, 6) { 2 } else { 6 },
             "muniic" => if rng.chance(3, 4) { 7 } else { 0 },
-            _ => rng.below(8),
+            "plugtext" => if rng.chance(3, 4) { 8 } else { 7 },
+            _ => rng.below(9),
         };
         match flavour {
             1 => {
@@ -947,6 +1016,18 @@ fn gen_dlt(g: &str, seed: u64, small: bool) -> Vec<u8> {
                 } else {
                     m.payload = p;
                 }
+            }
+            8 => {
+                // text-driven plugins: the grammar around every text shape they recognise -- Muniic config messages (ctid
+                // MDLT: "Version: <d.d>, git: <w>, model hash: <d>") and the SYS/JOUR text of the rewrite configuration
+                let (apid, ctid, text) = if rng.chance(2, 3) { (*b"MUNI", *b"MDLT", shape_text(&mut rng, &MUNIIC_CFG_SHAPE)) } else { (*b"SYS\0", *b"JOUR", shape_text(&mut rng, &JOUR_SHAPE)) };
+                let mut p = vec![];
+                a_str(&mut p, text.as_bytes(), be, rng.chance(3, 4));
+                let mut noar = 1u8;
+                if rng.chance(1, 8) { a_num(&mut p, 0x40, 3, rng.next(), be); noar = 2; }
+                if rng.chance(1, 12) { let k = rng.below(p.len() as u64 + 1) as usize; p.truncate(k); }
+                m = m.ext(if rng.chance(9, 10) { VERB_INFO } else { 0x40 }, noar, &apid, &ctid);
+                m.payload = p;
             }
             7 => {
                 // muniic: verbose, ctid MMSG, 13 arguments: #7 interface id, #8 message id, #12 payload (ids of /repo/tests/muniic/min.json)
@@ -1271,7 +1352,8 @@ fn gen_asc(seed: u64, small: bool) -> Vec<u8> {
             _ => s += &format!("   {} {}  {}             {}   d {} {} Length = {} BitCount = {} ID = {}\n", ts, chan, id, rng.pick(&["Rx", "Tx"]), dlc, data, rng.below(300000), rng.below(150), i),
         }
         if rng.chance(1, 40) {
-            s += &format!("date Wed May 25 03:07:31.{} pm {}\n", rng.below(1000), rng.pick(&years));
+            if rng.chance(1, 2) { s += &format!("date Wed May 25 03:07:31.{} pm {}\n", rng.below(1000), rng.pick(&years)); }
+            else { let y = *rng.pick(&[2022i32, 1970, 1969, 1960, 1, 9999, 2038, 2262, 2263]); s += &format!("{}\n", asc_date(&mut rng, y)); }
         }
     }
     s.into_bytes()
@@ -1314,7 +1396,7 @@ fn gen_logcat(seed: u64, small: bool) -> Vec<u8> {
         if rng.chance(1, 50) { mon = *rng.pick(&[1u32, 2, 3, 11, 12, 0, 13]); day = *rng.pick(&[1u32, 28, 29, 30, 31, 0, 32]); }
         let lvl = *rng.pick(&["I", "W", "E", "V", "F", "S", "D", "x", "Z"]);
         let tag = tag_variants(&mut rng);
-        let msg = match rng.below(8) { 0 => "".to_string(), 1 => "x".repeat(5000), 2 => "msg: with: colons".to_string(), 3 => "ünïcödé €".to_string(), _ => format!("message {}", rng.below(1000)) };
+        let msg = match rng.below(48) { 0..=5 => "".to_string(), 6..=11 => "x".repeat(5000), 12..=17 => "msg: with: colons".to_string(), 18..=23 => "ünïcödé €".to_string(), 24 => backtrack_text(&mut rng), _ => format!("message {}", rng.below(1000)) };
         let pid = if rng.chance(1, 10) { num_variants(&mut rng, "1234") } else { format!("{}", rng.below(32768)) };
         let use_mono = mode == 0 || (mode == 2 && rng.chance(1, 2));
         if use_mono {
@@ -1352,7 +1434,7 @@ fn gen_genlog(seed: u64, small: bool) -> Vec<u8> {
         let (h, mi, se) = if rng.chance(1, 20) { (*rng.pick(&[24u32, 99]), *rng.pick(&[60u32, 99]), *rng.pick(&[60u32, 61, 99])) } else { ((sec / 3600 % 24) as u32, (sec / 60 % 60) as u32, (sec % 60) as u32) };
         let lvl = *rng.pick(&["INF", "WRN", "ERR", "VER", "FAT", "SEV", "DBG", "xyz", "€€€", "é  ", "  "]);
         let tag = tag_variants(&mut rng);
-        let msg = match rng.below(8) { 0 => "".to_string(), 1 => "y".repeat(4000), 2 => "[a] [b] [c]".to_string(), 3 => "ünïcödé €".to_string(), _ => format!("message {}", rng.below(1000)) };
+        let msg = match rng.below(48) { 0..=5 => "".to_string(), 6..=11 => "y".repeat(4000), 12..=17 => "[a] [b] [c]".to_string(), 18..=23 => "ünïcödé €".to_string(), 24 => backtrack_text(&mut rng), _ => format!("message {}", rng.below(1000)) };
         s += &format!("[{:04}-{:02}-{:02} {:02}:{:02}:{:02}.{:03}] [{}] [{}] {}\n", year, mo, d, h, mi, se, rng.below(1000), lvl, tag, msg);
         if rng.chance(1, 30) { s += *rng.pick(&["continuation line without header\n", "\n", "[] [] [] \n", "[2024-01-01 00:00:00.000] [INF] [] \n"]); }
     }
@@ -1462,6 +1544,24 @@ fn worker_main(argv: &[String]) {
             let mut o = out.lock();
             writeln!(o, "START {}", idx).unwrap();
             o.flush().unwrap();
+        }
+        if let Some(u) = r.get("util") {
+            let t0 = std::time::Instant::now();
+            guard_start(alloc_limit(serde_json::to_string(u).map(|s| s.len()).unwrap_or(0) + 4 * 1024 * 1024));
+            let (fails, uo) = run_util(u);
+            let (maxreq, big) = guard_stop();
+            let big: Vec<usize> = big.into_iter().filter(|s| !allow.contains(s)).collect();
+            let failed = !fails.is_empty();
+            let v = json!({"fails": fails, "util": uo, "nmsgs": 0, "nlcs": 0, "len": 0, "out": 0, "maxreq": maxreq, "big": big, "ms": t0.elapsed().as_millis() as u64});
+            {
+                let mut so = out.lock();
+                writeln!(so, "DONE {} {}", idx, v).unwrap();
+                so.flush().unwrap();
+            }
+            if failed {
+                std::process::exit(3);
+            }
+            continue;
         }
         let bytes = expand(r);
         let ext = r["ext"].as_str().unwrap_or("dlt").to_string();
@@ -1715,13 +1815,52 @@ fn corpus() -> Vec<(Value, &'static str)> {
         for (k, tg) in tags.iter().enumerate() { t.push_str(&format!("[2024-01-02 03:04:{:02}.{:03}] [INF] [{}] m\n", k / 1000, k % 1000, tg)); }
         v.push((r_text("log", &t), "w_apid_exhausted"));
     }
+    // text-driven plugins: every single deviation of every part of the Muniic config text and of the SYS/JOUR text
+    {
+        let mut ms = vec![w1.clone()];
+        let mut k = 0u32;
+        for (apid, ctid, shape) in [(b"MUNI", b"MDLT", &MUNIIC_CFG_SHAPE[..]), (b"SYS\0", b"JOUR", &JOUR_SHAPE[..])] {
+            for t in shape_deviations(shape) {
+                k += 1;
+                let mut m = GM::new(if k % 2 == 0 { b"Ecu1" } else { b"ECU1" }, 1000, 600 + k, 50 + k).ext(VERB_INFO, 1, apid, ctid);
+                let mut p = vec![];
+                a_str(&mut p, t.as_bytes(), false, true);
+                m.payload = p;
+                ms.push(m);
+            }
+        }
+        v.push((r_hex("dlt", &enc(&ms)), "w_plugin_text_shapes"));
+    }
+    // payload texts on which the look-around payloadRegex filters exceed the backtrack limit of fancy_regex at match time
+    // (Filter::matches has to take the run-time error as "no match")
+    {
+        let mut ms = vec![w1.clone()];
+        for (k, t) in ["ab".repeat(40), "x".repeat(200), format!("x{}x", "word ".repeat(30))].iter().enumerate() {
+            let mut m = GM::new(b"ECU1", 1000, 500 + k as u32, 40 + k as u32).ext(VERB_INFO, 1, b"APID", b"CTID");
+            let mut p = vec![];
+            a_str(&mut p, t.as_bytes(), false, true);
+            m.payload = p;
+            ms.push(m);
+        }
+        v.push((r_hex("dlt", &enc(&ms)), "w_filter_regex_backtrack"));
+        v.push((r_text("txt", &format!("1.000 1 2 I tag: {}\n2.000 1 2 I tag: {}\n", "ab".repeat(40), "x".repeat(200))), "w_filter_regex_backtrack"));
+    }
+    // the '_' / capital counters of get_apid_for_tag were u32 (fix bf09881): the witness is a tag of 2^32 such characters,
+    // i.e. a line of more than 4 GiB, which cannot be a case here (replayed once with a scratch program, see
+    // known_findings.d/C03.json and theorem C03_apid_count_u32_before_fix_refuted); scaled down: beyond u16
+    {
+        let t = format!("1.000 1 2 I {}: a\n2.000 1 2 I {}: b\n3.000 1 2 I x{}: c\n", "_".repeat(70_000), "A".repeat(70_000), "_a".repeat(40_000));
+        v.push((r_text("txt", &t), "w_apid_u32_counters"));
+        let t = format!("[2024-01-02 03:04:05.678] [INF] [{}] a\n[2024-01-02 03:04:05.679] [INF] [{}] b\n", "_".repeat(70_000), "A".repeat(70_000));
+        v.push((r_text("log", &t), "w_apid_u32_counters"));
+    }
     v
 }
 
 const DLT_FILES: [&str; 7] = ["lc_ex002.dlt", "lc_ex003.dlt", "lc_ex004.dlt", "lc_ex005.dlt", "lc_ex006.dlt", "ex_1970_1_1.dlt", "test_ascii_utf8_strings.dlt"];
 const TEXT_FILES: [(&str, &str); 11] = [("asc", "can_example1.asc"), ("asc", "can_example1b.asc"), ("asc", "can_example1c.asc"), ("asc", "can_example2a.asc"), ("asc", "can_example2b.asc"), ("asc", "can_example3.asc"),
     ("txt", "logcat_example1.txt"), ("txt", "logcat_example2.txt"), ("txt", "logcat_example3.txt"), ("txt", "logcat_example4.txt"), ("log", "genlog_example1.log")];
-const GENS: [&str; 11] = ["lc", "lcspec", "ft", "ctrl", "nv", "someip", "can", "muniic", "serial", "mixed", "big"];
+const GENS: [&str; 12] = ["lc", "lcspec", "ft", "ctrl", "nv", "someip", "can", "muniic", "plugtext", "serial", "mixed", "big"];
 const BIN_MUTS: [&str; 4] = ["flip", "trunc", "splice", "bytes"];
 const TEXT_MUTS: [&str; 6] = ["flip", "trunc", "splice", "bytes", "uni", "longline"];
 
@@ -1730,6 +1869,10 @@ fn file_len(name: &str) -> usize {
 }
 
 fn build_cases(tier: &str, seed: u64, count: Option<u64>) -> Vec<(Value, String)> {
+    if std::env::var("C03_ONLY").as_deref() == Ok("util") {
+        // development aid: only the direct calls of the string helpers / converters' arithmetic
+        return util_cases(tier, seed);
+    }
     let mut rng = Rng::new(seed);
     let mut v: Vec<(Value, String)> = corpus().into_iter().map(|(r, t)| (r, t.to_string())).collect();
     let scale: u64 = match tier { "quick" => 5, "search" => 8, _ => 60 };
@@ -1814,6 +1957,8 @@ fn build_cases(tier: &str, seed: u64, count: Option<u64>) -> Vec<(Value, String)
             v.push((r, format!("grammar:{}", ext)));
         }
     }
+    // direct calls of the string helpers (model cases)
+    if count.is_none() || tier == "search" { v.extend(util_cases(tier, seed)); }
     // spread the expensive cases over the workers
     let mut keyed: Vec<(u64, (Value, String))> = v.into_iter().map(|c| (rng.next(), c)).collect();
     keyed.sort_by_key(|k| k.0);
@@ -1958,6 +2103,431 @@ fn ctrl_cases(sink: &mut Sink, tier: &str, seed: u64) {
     }
 }
 
+// ================================================================= string helpers of src/utils/mod.rs, called directly
+// (get_apid_for_tag incl. the private get_4digit_str, hex_to_bytes vs Crash/TextUtils.v).  The calls run in the isolated
+// workers like every other case (a panic inside get_apid_for_tag poisons the process-wide tag map; an endless loop must
+// hit the wall-clock limit, not hang the driver).
+fn r_util(u: Value) -> Value {
+    json!({"ext": "util", "base": {"k": "util"}, "muts": [], "ref": false, "model": true, "util": u})
+}
+/// tags of one recipe item: {"lit": "tag"}, {"num": [prefix, lo, n, suffix]} = prefix + decimal(lo + k) + suffix for k < n,
+/// {"rep": [prefix, unit, n, suffix]} = the one tag prefix + unit * n + suffix
+fn spec_tags(sp: &Value) -> Vec<String> {
+    if let Some(l) = sp.get("lit") {
+        return vec![l.as_str().unwrap_or("").to_string()];
+    }
+    if let Some(r) = sp.get("rep") {
+        return vec![format!("{}{}{}", r[0].as_str().unwrap_or(""), r[1].as_str().unwrap_or("").repeat(r[2].as_u64().unwrap_or(0) as usize), r[3].as_str().unwrap_or(""))];
+    }
+    let n = &sp["num"];
+    let (pre, lo, cnt, suf) = (n[0].as_str().unwrap_or(""), n[1].as_u64().unwrap_or(0), n[2].as_u64().unwrap_or(0), n[3].as_str().unwrap_or(""));
+    (0..cnt).map(|k| format!("{}{}{}", pre, lo + k, suf)).collect()
+}
+fn hash_apids(a: &[u32]) -> u64 {
+    a.iter().fold(0u64, |h, x| h.wrapping_mul(1_000_003).wrapping_add(*x as u64).wrapping_add(1))
+}
+/// a tag can be given to the generic-log converter as `[tag]` if the line regex captures exactly it
+fn tag_fits_genlog(t: &str) -> bool {
+    !t.contains(']') && !t.contains('\n') && !t.contains('\r')
+}
+/// worker side: runs the real functions; returns (failed stages, observation)
+fn run_util(u: &Value) -> (Vec<(String, String)>, Value) {
+    let mut fails = vec![];
+    match u["k"].as_str().unwrap_or("") {
+        "apid" => {
+            let specs = u["specs"].as_array().cloned().unwrap_or_default();
+            let ns = adlt::utils::get_new_namespace();
+            let mut per_spec: Vec<Vec<u32>> = vec![];
+            let done = stage("apid", &mut fails, || {
+                let mut out = vec![];
+                for sp in &specs {
+                    out.push(spec_tags(sp).iter().map(|t| ecu_u32(&adlt::utils::get_apid_for_tag(ns, t))).collect::<Vec<u32>>());
+                }
+                out
+            });
+            if let Some(o) = done { per_spec = o; }
+            // the same tags as lines of a generic-log file in a fresh namespace: the converter must hand out the same apids
+            if u["via_log"].as_bool().unwrap_or(false) && fails.is_empty() {
+                let tags: Vec<String> = specs.iter().flat_map(|sp| spec_tags(sp)).collect();
+                let mut text = String::new();
+                for (k, t) in tags.iter().enumerate() {
+                    text.push_str(&format!("[2024-01-02 03:{:02}:{:02}.{:03}] [INF] [{}] m\n", (k / 60000) % 60, (k / 1000) % 60, k % 1000, t));
+                }
+                let direct: Vec<u32> = per_spec.iter().flatten().copied().collect();
+                let conv = stage("apid_via_log", &mut fails, || {
+                    let ns2 = adlt::utils::get_new_namespace();
+                    let rd = LowMarkBufReader::new(std::io::Cursor::new(text.into_bytes()), 512 * 1024, DLT_MAX_STORAGE_MSG_SIZE + 4);
+                    adlt::utils::get_dlt_message_iterator("log", 0, rd, ns2, None, Some(MODIFIED_US), None).filter(|m| m.is_verbose()).map(|m| m.apid().map(ecu_u32).unwrap_or(0)).collect::<Vec<u32>>()
+                });
+                if let Some(c) = conv {
+                    if c != direct {
+                        let i = c.iter().zip(direct.iter()).position(|(a, b)| a != b).unwrap_or(c.len().min(direct.len()));
+                        fails.push(("harness_apid_via_log".into(), format!("generic-log converter and direct calls differ at tag #{} ({} vs {} apids)", i, c.len(), direct.len())));
+                    }
+                }
+            }
+            let o: Vec<Value> = specs.iter().zip(per_spec.iter()).map(|(sp, a)| if sp.get("num").is_none() { json!(a.first().copied().unwrap_or(0)) } else { json!([a.len(), hash_apids(a)]) }).collect();
+            (fails, json!(o))
+        }
+        "hex" => {
+            let s = u["s"].as_str().unwrap_or("").to_string();
+            let r = stage("hex_to_bytes", &mut fails, || adlt::utils::hex_to_bytes(&s));
+            (fails, match r { Some(Some(v)) => json!([v]), _ => json!([]) })
+        }
+        "asc" | "logcat" => {
+            let kind = u["k"].as_str().unwrap_or("");
+            let text = u["text"].as_str().unwrap_or("").to_string();
+            let with_ref = u["ref"].as_bool().unwrap_or(false);
+            let r = stage(kind, &mut fails, || {
+                let ns = adlt::utils::get_new_namespace();
+                let rd = LowMarkBufReader::new(std::io::Cursor::new(text.into_bytes()), 512 * 1024, DLT_MAX_STORAGE_MSG_SIZE + 4);
+                let it = adlt::utils::get_dlt_message_iterator(if kind == "asc" { "asc" } else { "txt" }, 0, rd, ns, if with_ref { Some(REF_US) } else { None }, Some(MODIFIED_US), None);
+                it.take(MAX_MSGS).map(|m| json!([m.reception_time_us, m.timestamp_dms, m.standard_header.len, m.is_ctrl_response(), if m.payload.len() > 4 && !m.is_ctrl_response() { m.payload[4..].to_vec() } else { vec![] }])).collect::<Vec<Value>>()
+            });
+            (fails, json!(r.unwrap_or_default()))
+        }
+        _ => (vec![("harness_util".into(), "unknown util kind".into())], json!(null)),
+    }
+}
+// ---- the converters' arithmetic: what the driver derives from the text of a case (regex capture locations with the
+// regexes of the converters, chrono's value of a date line) = the inputs of Crash/TextTime.v
+enum AscItem { Date(i64), Can(String, usize, usize, usize, usize), Bus(usize) }
+fn asc_items(text: &str) -> Vec<AscItem> {
+    use std::sync::OnceLock;
+    static RE: OnceLock<(regex::Regex, regex::Regex, regex::Regex, regex::Regex)> = OnceLock::new();
+    let (re_msg, re_fd, re_fd_err, re_date) = RE.get_or_init(|| (
+        regex::Regex::new(r"^\s*(-?\d+\.\d{6})\s+(\d+)\s+([0-9a-fx]+)\s+(Rx|Tx)\s+d\s+(\d+)").unwrap(),
+        regex::Regex::new(r"^\s*(-?\d+\.\d{6})\s+CANFD\s+(\d+)\s+(Rx|Tx)\s+([0-9a-fx]+)\s+(\d+)\s+(\d+)\s+([0-9a-fx]+)\s+(\d+)").unwrap(),
+        regex::Regex::new(r"^\s*(-?\d+\.\d{6})\s+CANFD\s+(\d+)\s+(Rx|Tx)\s+ErrorFrame").unwrap(),
+        regex::Regex::new(r"^date (.*)$").unwrap()));
+    let mut v = vec![];
+    for line in text.split('\n') {
+        if let Some(c) = re_msg.captures(line) {
+            let (t, d) = (c.get(1).unwrap(), c.get(5).unwrap());
+            v.push(AscItem::Can(line.to_string(), t.start(), t.end(), d.start(), d.end()));
+        } else if re_fd.is_match(line) || re_fd_err.is_match(line) {
+            v.push(AscItem::Bus(usize::MAX)); // not generated; would show up as a disagreement
+        } else if let Some(c) = re_date.captures(line) {
+            if let Ok(nt) = chrono::NaiveDateTime::parse_from_str(c.get(1).unwrap().as_str(), "%a %b %d %I:%M:%S%.f %p %Y") {
+                v.push(AscItem::Date(nt.and_utc().timestamp_micros()));
+            }
+        } else if line.starts_with("//") {
+            let comment = line[2..].trim();
+            if comment.starts_with("BusMapping: CAN") {
+                let id_idx = 14 + comment[14..].find(' ').unwrap_or(1);
+                if let Some((id, name)) = comment[id_idx..].split_once('=') {
+                    if id.trim().parse::<u8>().is_ok() {
+                        v.push(AscItem::Bus(name.trim().len()));
+                    }
+                }
+            }
+        }
+    }
+    v
+}
+/// (timestamp capture, Some(tag length) if the line makes the converter emit a GET_LOG_INFO message first)
+fn logcat_items(text: &str) -> Vec<(String, Option<usize>)> {
+    use std::sync::OnceLock;
+    static RE: OnceLock<regex::Regex> = OnceLock::new();
+    let re = RE.get_or_init(|| regex::Regex::new(r"^\s*(\d+\.\d+)\s+(\d+)\s+(\d+) ([A-Za-z]) (.*?)\s*: (.*)$").unwrap());
+    let mut seen = std::collections::HashSet::new();
+    let mut v = vec![];
+    for line in text.split('\n') {
+        if let Some(c) = re.captures(line) {
+            let tag = c.get(5).unwrap().as_str();
+            let new = seen.insert(tag.to_string());
+            v.push((c.get(1).unwrap().as_str().to_string(), if new && !tag.is_empty() { Some(tag.len()) } else { None }));
+        }
+    }
+    v
+}
+fn util_coq(u: &Value) -> String {
+    let bytes = |s: &str| cnums(s.as_bytes());
+    match u["k"].as_str().unwrap_or("") {
+        "apid" => {
+            let items: Vec<String> = u["specs"].as_array().map(|a| a.iter().map(|sp| {
+                if let Some(l) = sp.get("lit") { format!("TLit {}", bytes(l.as_str().unwrap_or(""))) }
+                else if let Some(r) = sp.get("rep") { format!("TRep {} {} {} {}", bytes(r[0].as_str().unwrap_or("")), bytes(r[1].as_str().unwrap_or("")), r[2].as_u64().unwrap_or(0), bytes(r[3].as_str().unwrap_or(""))) }
+                else { let n = &sp["num"]; format!("TNum {} {} {} {}", bytes(n[0].as_str().unwrap_or("")), n[1].as_u64().unwrap_or(0), n[2].as_u64().unwrap_or(0), bytes(n[3].as_str().unwrap_or(""))) }
+            }).collect()).unwrap_or_default();
+            format!("(CApid {})", clist(&items))
+        }
+        "hex" => format!("(CHex {})", bytes(u["s"].as_str().unwrap_or(""))),
+        "asc" => {
+            let items: Vec<String> = asc_items(u["text"].as_str().unwrap_or("")).iter().map(|it| match it {
+                AscItem::Date(nt) => format!("ADate {} {}", cbool(*nt < 0), nt.unsigned_abs()),
+                AscItem::Can(line, a, b, c, d) => format!("ACan {} {} {} {} {}", bytes(line), a, b, c, d),
+                AscItem::Bus(n) => format!("ABus {}", n),
+            }).collect();
+            format!("(CAsc {} {})", copt(if u["ref"].as_bool().unwrap_or(false) { Some(REF_US.to_string()) } else { None }), clist(&items))
+        }
+        "logcat" => {
+            let items: Vec<String> = logcat_items(u["text"].as_str().unwrap_or("")).iter().map(|(ts, info)| format!("({}, {})", bytes(ts), copt(info.map(|n| n.to_string())))).collect();
+            format!("(CLogcat {} {})", MODIFIED_US, clist(&items))
+        }
+        _ => "(CSearch 0)".to_string(),
+    }
+}
+fn util_obs(u: &Value, ok: bool, o: &Value) -> O {
+    if !ok { return O::T(vec![O::L(1)]); }
+    let val = |v: &Value| -> O { match v { Value::Array(a) => O::T(a.iter().map(|x| O::L(x.as_u64().unwrap_or(0) as u128)).collect()), x => O::L(x.as_u64().unwrap_or(0) as u128) } };
+    match u["k"].as_str().unwrap_or("") {
+        "apid" => O::T(vec![O::L(0), O::T(o.as_array().map(|a| a.iter().map(val).collect()).unwrap_or_default())]),
+        "hex" => O::T(vec![O::L(0), O::T(o.as_array().map(|a| a.iter().map(val).collect()).unwrap_or_default())]),
+        "asc" => {
+            // one entry per item of the text; the messages of the converter are consumed in order
+            let msgs = o.as_array().cloned().unwrap_or_default();
+            let mut k = 0usize;
+            let n = |v: &Value| O::L(v.as_u64().unwrap_or(0) as u128);
+            let mut out = vec![];
+            for it in asc_items(u["text"].as_str().unwrap_or("")) {
+                match it {
+                    AscItem::Date(_) => out.push(O::T(vec![])),
+                    AscItem::Can(..) => { let m = msgs.get(k).cloned().unwrap_or(json!([0, 0, 0, false, []])); k += 1; out.push(O::T(vec![n(&m[0]), n(&m[1]), n(&m[2]), val(&m[4])])); }
+                    AscItem::Bus(_) => { let m = msgs.get(k).cloned().unwrap_or(json!([0, 0, 0, false, []])); k += 1; out.push(O::T(vec![n(&m[0]), n(&m[1]), n(&m[2])])); }
+                }
+            }
+            if k != msgs.len() { out.push(O::L(msgs.len() as u128)); } // more messages than modelled lines: disagreement
+            O::T(vec![O::L(0), O::T(out)])
+        }
+        "logcat" => {
+            let msgs = o.as_array().cloned().unwrap_or_default();
+            let mut k = 0usize;
+            let n = |v: &Value| O::L(v.as_u64().unwrap_or(0) as u128);
+            let mut out = vec![];
+            for (_, info) in logcat_items(u["text"].as_str().unwrap_or("")) {
+                let dflt = json!([0, 0, 0, false, []]);
+                let mut info_o = O::T(vec![]);
+                if info.is_some() {
+                    let im = msgs.get(k).cloned().unwrap_or(dflt.clone()); k += 1;
+                    let lm = msgs.get(k).cloned().unwrap_or(dflt.clone());
+                    // the GET_LOG_INFO message carries the times of its log message
+                    info_o = if im[0] == lm[0] && im[1] == lm[1] && im[3] == json!(true) { O::T(vec![n(&im[2])]) } else { O::T(vec![n(&im[2]), O::L(999)]) };
+                }
+                let m = msgs.get(k).cloned().unwrap_or(dflt); k += 1;
+                out.push(O::T(vec![n(&m[0]), n(&m[1]), info_o, ]));
+                if m[2] != json!(22) { out.push(O::L(m[2].as_u64().unwrap_or(0) as u128)); } // a log message has no payload: len 22
+            }
+            if k != msgs.len() { out.push(O::L(msgs.len() as u128)); }
+            O::T(vec![O::L(0), O::T(out)])
+        }
+        _ => O::T(vec![O::L(0)]),
+    }
+}
+
+// ---- generators
+const WS_CHARS: [&str; 25] = ["\t", "\n", "\u{b}", "\u{c}", "\r", " ", "\u{85}", "\u{a0}", "\u{1680}", "\u{2000}", "\u{2001}", "\u{2002}", "\u{2003}", "\u{2004}", "\u{2005}", "\u{2006}", "\u{2007}", "\u{2008}", "\u{2009}", "\u{200a}", "\u{2028}", "\u{2029}", "\u{202f}", "\u{205f}", "\u{3000}"];
+// close to white space but not White_Space: U+001C..U+001F, U+200B (zero width space), U+180E, U+FEFF, U+2060, U+0084, U+0086, U+00A1, U+3001
+const NOT_WS_CHARS: [&str; 12] = ["\u{1c}", "\u{1f}", "\u{200b}", "\u{180e}", "\u{feff}", "\u{2060}", "\u{84}", "\u{86}", "\u{a1}", "\u{3001}", "\u{8}", "\u{e}"];
+const MB_CHARS: [&str; 8] = ["é", "ß", "€", "‰", "𝄞", "😀", "İ", "\u{7ff}"];
+fn gen_core_tag(rng: &mut Rng) -> String {
+    let word = |rng: &mut Rng, n: u64| -> String { (0..n).map(|_| *rng.pick(&['a', 'b', 'z', 'A', 'Q', 'Z', '0', '9', '-', '.', '+'])).collect() };
+    match rng.below(16) {
+        0 => "".into(),
+        1 => { let n = rng.range(1, 4); word(rng, n) }
+        2 => { let n = rng.range(5, 12); word(rng, n) }
+        3 => { // snake_case of 1..5 parts, parts may be empty / non-ASCII
+            let k = rng.range(1, 5);
+            (0..=k).map(|_| match rng.below(6) { 0 => "".to_string(), 1 => rng.pick(&MB_CHARS).to_string(), _ => { let n = rng.range(1, 4); word(rng, n) } }).collect::<Vec<_>>().join("_")
+        }
+        4 => { // CamelCase with 0..6 capitals
+            let k = rng.below(7);
+            let mut s: String = (0..k).map(|_| format!("{}{}", rng.pick(&['A', 'K', 'Z']), (0..rng.below(3)).map(|_| *rng.pick(&['a', 'm', 'z', '1'])).collect::<String>())).collect();
+            if rng.chance(1, 3) { s.push_str(*rng.pick(&MB_CHARS)); }
+            if rng.chance(1, 2) { s.push_str("lower"); }
+            s
+        }
+        5 => { // a multi-byte character at byte position 0..=4 of an ASCII word
+            let n = rng.range(0, 6); let w = word(rng, n);
+            let at = (rng.below(5) as usize).min(w.len());
+            format!("{}{}{}", &w[..at], rng.pick(&MB_CHARS), &w[at..])
+        }
+        6 => (0..rng.range(1, 3)).map(|_| rng.pick(&MB_CHARS).to_string()).collect(),
+        7 => format!("{}", *rng.pick(&[0u32, 1, 9, 10, 99, 100, 999, 1000, 1001, 4321, 9999, 10000, 65535, 65536])),
+        8 => format!("{:04}", rng.below(12)),
+        9 => rng.pick(&["NoAs", "NoA1", "No10", "N100", "NoAsX", "No_As", " 001", "0001", "a_b_c_d_e", "_____", "__a", "a__", "_a_", "ALLUPPERCASE", "alllowercase", "aB", "aBcDeFg", "x", "xx", "xxx", "xxxx", "xxxxx"]).to_string(),
+        10 => rng.pick(&["ActivityManager", "chatty", "Zygote", "SYS", "Tag1", "Tag2", "PT-CAN", "a: b", "] [", "snake_case_é_tag", "CamelCaseTagNameİ"]).to_string(),
+        11 => { let n = rng.below(5); let c = *rng.pick(&NOT_WS_CHARS); format!("{}{}", c, word(rng, n)) }
+        12 => { let n = rng.below(5); let c = *rng.pick(&NOT_WS_CHARS); format!("{}{}", word(rng, n), c) }
+        13 => "x".repeat(*rng.pick(&[5usize, 64, 300])),
+        14 => format!("{}_{}", "é".repeat(rng.range(1, 3) as usize), "ü".repeat(rng.range(1, 3) as usize)),
+        _ => format!("Tag{}", rng.below(30)),
+    }
+}
+fn gen_ws(rng: &mut Rng) -> String {
+    (0..rng.below(3)).map(|_| rng.pick(&WS_CHARS).to_string()).collect()
+}
+fn gen_tag(rng: &mut Rng) -> String {
+    let core = gen_core_tag(rng);
+    match rng.below(4) { 0 => core, 1 => format!("{}{}", gen_ws(rng), core), 2 => format!("{}{}", core, gen_ws(rng)), _ => format!("{}{}{}", gen_ws(rng), core, gen_ws(rng)) }
+}
+fn gen_hex_str(rng: &mut Rng) -> String {
+    let hexd = |rng: &mut Rng| *rng.pick(&['0', '1', '9', 'a', 'f', 'A', 'F', 'c', '7', 'E']);
+    let n = rng.below(7);
+    let mut s = String::new();
+    for i in 0..n {
+        if i > 0 { s.push(if rng.chance(5, 6) { ' ' } else { *rng.pick(&['\t', 'x', '-', '0', '\u{a0}', '€', ':']) }); }
+        match rng.below(14) {
+            0 => { s.push('+'); s.push(hexd(rng)); }
+            1 => { s.push('-'); s.push(hexd(rng)); }
+            2 => { s.push(hexd(rng)); s.push(*rng.pick(&['g', 'G', '/', ':', '@', '`', '+', '-', ' ', 'x'])); }
+            3 => { s.push(*rng.pick(&['g', 'G', '/', ':', '@', '`', ' ', 'x'])); s.push(hexd(rng)); }
+            4 => s.push_str(*rng.pick(&["é", "€", "++", "+-", "--", "+", "٣٣", "ff0", "f"])),
+            _ => { s.push(hexd(rng)); s.push(hexd(rng)); }
+        }
+    }
+    match rng.below(10) { 0 => format!(" {}", s), 1 => format!("{} ", s), 2 => format!("{}€", s), _ => s }
+}
+/// a date line of an asc file that chrono accepts (the weekday must fit the date)
+fn asc_date(rng: &mut Rng, year: i32) -> String {
+    use chrono::Datelike;
+    let d = chrono::NaiveDate::from_ymd_opt(year, rng.range(1, 12) as u32, rng.range(1, 28) as u32).unwrap_or_default();
+    let wd = ["Mon", "Tue", "Wed", "Thu", "Fri", "Sat", "Sun"][d.weekday().num_days_from_monday() as usize];
+    let mo = ["Jan", "Feb", "Mar", "Apr", "May", "Jun", "Jul", "Aug", "Sep", "Oct", "Nov", "Dec"][d.month0() as usize];
+    format!("date {} {} {} {:02}:{:02}:{:02}{} {} {}", wd, mo, d.day(), rng.range(1, 12), rng.range(0, 59), rng.range(0, 59), rng.pick(&["", ".123", ".999999"]), rng.pick(&["AM", "PM", "am", "pm"]), year)
+}
+fn gen_secs_str(rng: &mut Rng) -> String {
+    match rng.below(22) {
+        0 => "0".into(),
+        1 => "9223372036854".into(),              // * 10^6 just below i64::MAX
+        2 => "9223372036855".into(),              // saturates as i64
+        3 => "18446744073709".into(),             // * 10^6 just below u64::MAX
+        4 => "18446744073710".into(),             // saturates as u64
+        5 => "9223372036854775807".into(),
+        6 => "9223372036854775808".into(),
+        7 => "18446744073709551615".into(),
+        8 => "18446744073709551616".into(),
+        9 => "99999999999999999999999999".into(),
+        10 => "000000000000000000000000000042".into(),
+        11 => "٣".into(),                         // \\d of the regex crate matches it, parse() does not
+        12 => "1٣".into(),
+        13 => "429496".into(),                    // timestamp_dms wraps at 2^32 * 100 us
+        14 => "429497".into(),
+        15 => "99999999999999".into(),
+        _ => format!("{}", rng.below(100_000)),
+    }
+}
+fn gen_asc_time(rng: &mut Rng, k: u64) -> String {
+    let mut s = String::new();
+    let years = [2022i32, 2024, 2024, 1970, 1969, 1960, 9999, 2023, 2038, 2262];
+    let y0 = *rng.pick(&years);
+    s += &format!("{}\n", asc_date(rng, y0));
+    s += "base hex  timestamps absolute\n";
+    let neg_run = k % 4 == 0;
+    for i in 0..rng.range(2, 9) {
+        let secs = gen_secs_str(rng);
+        let frac = match rng.below(8) { 0 => "000000".to_string(), 1 => "999999".to_string(), 2 => "٠٠٠٠٠٠".to_string(), _ => format!("{:06}", rng.below(1_000_000)) };
+        let sign = if (neg_run && i < 3) || rng.chance(1, 8) { "-" } else { "" };
+        let dlen_n = match rng.below(10) { 0 => 0usize, 1 => 64, 2 => 21845, 3 => 65535, _ => rng.range(0, 8) as usize };
+        let dlen = match rng.below(12) { 0 => "65536".to_string(), 1 => "99999999999999999999".to_string(), 2 => "٣".to_string(), 3 => format!("0{}", dlen_n), _ => dlen_n.to_string() };
+        let real_n = if dlen_n > 64 { *rng.pick(&[8usize, 8, 0]) } else if rng.chance(1, 6) { rng.range(0, 10) as usize } else { dlen_n };
+        let mut data = String::new();
+        for j in 0..real_n {
+            if j > 0 { data.push(if rng.chance(9, 10) { ' ' } else { *rng.pick(&['x', '\t', '€', '\u{a0}']) }); }
+            data += &match rng.below(12) { 0 => format!("+{:x}", rng.below(16)), 1 => "g0".to_string(), 2 => "€".to_string(), _ => format!("{:02x}", rng.below(256)) };
+        }
+        let tail = *rng.pick(&["", " ", " Length = 0 BitCount = 0 ID = 879", "€", " zz"]);
+        let gap = *rng.pick(&[" ", " ", "  ", "\u{a0}"]);
+        s += &format!("{}{}{}.{} {}  {}             {}   d {}{}{}{}\n", rng.pick(&["", "   ", "\t"]), sign, secs, frac, rng.below(3), rng.pick(&["36f", "1fffffffx", "0", "x"]), rng.pick(&["Rx", "Tx"]), dlen, gap, data, tail);
+        if rng.chance(1, 6) { s += &format!("// BusMapping: CAN {} = {}\n", rng.range(1, 3), match rng.below(5) { 0 => "".to_string(), 1 => "N".repeat(65_497), 2 => "N".repeat(65_499), 3 => "é".repeat(40_000), _ => "PT-CAN".to_string() }); }
+        if rng.chance(1, 8) { let y = *rng.pick(&years); s += &format!("{}\n", asc_date(rng, y)); }
+        if rng.chance(1, 10) { s += "Start of measurement\n"; }
+    }
+    s
+}
+fn gen_logcat_time(rng: &mut Rng, k: u64) -> String {
+    let mut s = String::new();
+    for i in 0..rng.range(2, 9) {
+        let secs = gen_secs_str(rng);
+        let frac = match rng.below(14) {
+            0 => "0".to_string(), 1 => "5".to_string(), 2 => "12".to_string(), 3 => "1234".to_string(), 4 => "12345".to_string(), 5 => "999999".to_string(),
+            6 => "9999999".to_string(), 7 => "18446744073709551615".to_string(), 8 => "18446744073709551616".to_string(), 9 => "999999999999999999999999".to_string(),
+            10 => "٣٣٣".to_string(), 11 => "٣".to_string(), _ => format!("{:03}", rng.below(1000)),
+        };
+        let tag = match rng.below(9) { 0 => "".to_string(), 1 => "T".repeat(65_497), 2 => "T".repeat(65_499), 3 => "ü".repeat(33_000), 4 => "same".to_string(), _ => format!("tag{}_{}", k, i) };
+        s += &format!("{}{}.{} {} {} I {}: m{}\n", rng.pick(&["", " ", "    "]), secs, frac, rng.below(32768), rng.below(32768), tag, i);
+        if rng.chance(1, 10) { s += "--------- beginning of main\n"; }
+    }
+    s
+}
+/// the families of direct calls (recipes for the workers)
+fn util_cases(tier: &str, seed: u64) -> Vec<(Value, String)> {
+    let mut rng = Rng::new(seed ^ 0x7A65);
+    let mut v: Vec<(Value, String)> = vec![];
+    let lit = |t: &str| json!({"lit": t});
+    let num = |p: &str, lo: u64, n: u64, s: &str| json!({"num": [p, lo, n, s]});
+    let apid = |specs: Vec<Value>, via: bool| r_util(json!({"k": "apid", "specs": specs, "via_log": via}));
+    let via_ok = |specs: &[Value]| specs.iter().all(|sp| spec_tags(sp).iter().all(|t| tag_fits_genlog(t)));
+    let scale: u64 = match tier { "quick" => 1, "search" => 2, _ => 10 };
+    // fixed families: the edge of every branch
+    v.push((apid(vec![lit(""), lit(" "), lit("\t"), lit("\u{a0}"), lit("  "), lit("\u{3000}\u{2003}"), lit(""), lit(" ")], false), "apid:blank".into()));
+    v.push((apid(vec![lit("éé"), lit("ää"), lit("öö"), lit("€"), lit("€x"), lit("x€"), lit("𝄞"), lit("NoAs"), lit("NoA1"), lit("éé")], true), "apid:nonascii_short".into()));
+    for base in ["Abcd", "NoAs", "a€", "\u{7ff}\u{7ff}", "x"] {
+        // the same trimmed tag under different white space: iterations 1, 2, 3, ..
+        let mut specs = vec![lit(base)];
+        for w in WS_CHARS.iter() { specs.push(lit(&format!("{}{}", w, base))); specs.push(lit(&format!("{}{}", base, w))); }
+        v.push((apid(specs, false), "apid:same_trim".into()));
+    }
+    // long tags: the '_' / capital counters beyond u16 (they were u32 before fix bf09881; 2^32 cannot be run here)
+    {
+        let rep = |p: &str, u: &str, n: u64, s: &str| json!({"rep": [p, u, n, s]});
+        v.push((apid(vec![rep("", "_", 70_000, ""), rep("", "A", 70_000, ""), rep("x", "_a", 40_000, ""), rep("", "é_", 33_000, "Z"), rep(" ", "Ab", 35_000, "\u{3000}"), rep("", "_", 65_536, "a"), rep("", "\u{2003}", 30_000, "")], false), "apid:long_tags".into()));
+    }
+    // candidate space of one abbreviation filled up to 100 / 1000 (quick) / completely (thorough): iterations 100, 1000, 9999
+    for (base, upto) in [("Abcd", 100u64), ("Wxyz", 1000), ("NoAs", 100), ("Qr5t", 1000)] {
+        let (b3, b2, b1) = (&base[..3], &base[..2], &base[..1]);
+        let mut specs = vec![lit(base), num(b3, 1, 9, ""), num(b2, 10, 90, "")];
+        if upto >= 1000 { specs.push(num(b1, 100, 900, "")); }
+        specs.push(lit(&format!("{}e", base)));
+        specs.push(lit(&format!("{}_x", base)));
+        specs.push(lit(&format!(" {}", base)));
+        specs.push(lit("éé"));
+        v.push((apid(specs, true), format!("apid:prefill_{}", upto)));
+    }
+    if tier != "quick" && tier != "search" {
+        v.push((apid(vec![lit("Abcd"), num("Abc", 1, 9, ""), num("Ab", 10, 90, ""), num("A", 100, 900, ""), num("", 1000, 9000, ""), lit("Abcde"), lit("AbcdX"), lit("Abcde")], false), "apid:exhausted_full".into()));
+    }
+    // generated sequences in one namespace
+    for k in 0..(70 * scale) {
+        let mut specs = vec![];
+        match k % 5 {
+            0 | 1 => { for _ in 0..rng.range(4, 24) { specs.push(lit(&gen_tag(&mut rng))); } }
+            2 => { // one core under many shapes of white space + repeats
+                let core = gen_core_tag(&mut rng);
+                for _ in 0..rng.range(3, 14) { specs.push(lit(&format!("{}{}{}", gen_ws(&mut rng), core, gen_ws(&mut rng)))); }
+            }
+            3 => { // numbered tags: colliding abbreviations, higher iterations
+                let pre = match rng.below(8) { 0 => "".to_string(), 1 => "é".to_string(), 2 => "tag_nr_".to_string(), 3 => "Tag".to_string(), 4 => "Abcd".to_string(), 5 => "a_".to_string(), _ => gen_core_tag(&mut rng) };
+                let suf = if rng.chance(1, 4) { gen_core_tag(&mut rng) } else { "".to_string() };
+                specs.push(num(&pre, *rng.pick(&[0u64, 1, 95, 990, 9990, 65530]), rng.range(5, 60), &suf));
+                for _ in 0..rng.below(4) { specs.push(lit(&gen_tag(&mut rng))); }
+            }
+            _ => { // walking into tags that are numbers of their own
+                for n in [1000u64, 1001, 1, 10, 100] { if rng.chance(2, 3) { specs.push(lit(&n.to_string())); } }
+                let core = gen_core_tag(&mut rng);
+                specs.push(num(&core, 0, rng.range(2, 30), ""));
+            }
+        }
+        let via = via_ok(&specs) && rng.chance(1, 2);
+        v.push((apid(specs, via), format!("apid:gen{}", k % 5)));
+    }
+    // the converters' time / length arithmetic
+    for k in 0..(40 * scale) {
+        v.push((r_util(json!({"k": "asc", "text": gen_asc_time(&mut rng, k), "ref": k % 3 == 1})), "asctime".into()));
+    }
+    for k in 0..(30 * scale) {
+        v.push((r_util(json!({"k": "logcat", "text": gen_logcat_time(&mut rng, k)})), "logcattime".into()));
+    }
+    // hex_to_bytes
+    for s in ["", "a", "ab", "ab ", "ab cd", "abXcd", "+f", "-1", "+1 +2", "++", "+", "f+", " 1", "0x", "AB CD EF", "ab\tcd", "€€", "d 2 €€€€€", "ab€cd", "ab cd€", "fF", "gg", "0g", "g0", "ab  cd", "abcd", "a b c", "٣٣", "+٣", "ff ff ff ff ff ff ff ff"] {
+        v.push((r_util(json!({"k": "hex", "s": s})), "hex:fixed".into()));
+    }
+    for _ in 0..(160 * scale) {
+        v.push((r_util(json!({"k": "hex", "s": gen_hex_str(&mut rng)})), "hex:gen".into()));
+    }
+    v
+}
+
 // ================================================================= Coq rendering, oracle, main
 fn coq_case(r: &Value, bytes: &[u8], o: &Value) -> String {
     let model = r["model"].as_bool().unwrap_or(false);
@@ -2014,11 +2584,13 @@ fn main() {
         build_cases(&a.tier, a.seed, a.count)
     };
     let recipes: Vec<Value> = cases.iter().map(|c| c.0.clone()).collect();
-    let limit_s = if a.tier == "quick" { 20 } else { 60 };
+    let limit_s = if a.tier == "quick" { 30 } else { 60 }; // the slowest quick case needs ~7 s on an idle machine; 30 s tolerates a 4x loaded one
     let t0 = std::time::Instant::now();
     let (outcomes, allow) = run_all(&a.out, &recipes, limit_s);
     let wall = t0.elapsed().as_secs_f64();
     let (mut tot_msgs, mut tot_bytes, mut max_ms, mut n_model) = (0u64, 0u64, 0u64, 0u64);
+    let mut n_apid_calls = 0u64;
+    let mut n_time_msgs = 0u64;
     let mut fx_tot: std::collections::BTreeMap<String, (u64, u64, u64, u64)> = Default::default();
     for (i, ((r, tag), oc)) in cases.iter().zip(outcomes.iter()).enumerate() {
         let bytes = expand(r);
@@ -2058,6 +2630,21 @@ fn main() {
             }
         }
         let ok = matches!(verdict, Verdict::Ok);
+        if let Some(u) = r.get("util") {
+            let kind = u["k"].as_str().unwrap_or("");
+            let mut tags = vec![format!("util:{}", kind), tag.clone(), format!("model:{}", kind)];
+            if kind == "asc" || kind == "logcat" { n_time_msgs += o["util"].as_array().map(|a| a.len() as u64).unwrap_or(0); }
+            if u["via_log"].as_bool().unwrap_or(false) { tags.push("apid:via_genlog_converter".into()); }
+            if !ok { tags.push("FAIL".into()); }
+            n_model += 1;
+            max_ms = max_ms.max(o["ms"].as_u64().unwrap_or(0));
+            let ntags: usize = u["specs"].as_array().map(|a| a.iter().map(|sp| if sp.get("num").is_none() { 1 } else { sp["num"][2].as_u64().unwrap_or(0) as usize }).sum()).unwrap_or(0);
+            n_apid_calls += ntags as u64;
+            let js = serde_json::to_string(u).unwrap_or_default();
+            let key = format!("util/{:x}", { let mut h = 0xcbf29ce484222325u64; for b in js.as_bytes() { h = (h ^ *b as u64).wrapping_mul(0x100000001b3); } h });
+            sink.push(Case { id: i as u64, input_coq: util_coq(u), input_json: r.clone(), obs: util_obs(u, ok, &o["util"]), verdict, classes: vec![], tags, nontrivial: kind != "apid" || ntags >= 2, key });
+            continue;
+        }
         let coq = coq_case(r, &bytes, o);
         if !coq.starts_with("(CSearch") { n_model += 1; tags.push(if coq.starts_with("(CBytes") { "model:bytes".into() } else { "model:lc".into() }); }
         let nm = o["nmsgs"].as_u64().unwrap_or(0);
@@ -2103,6 +2690,8 @@ fn main() {
     sink.extra_stats.insert("input_bytes".into(), json!(tot_bytes));
     sink.extra_stats.insert("slowest_case_ms".into(), json!(max_ms));
     sink.extra_stats.insert("model_cases".into(), json!(n_model));
+    sink.extra_stats.insert("get_apid_for_tag_calls_compared".into(), json!(n_apid_calls));
+    sink.extra_stats.insert("converter_time_messages_compared".into(), json!(n_time_msgs));
     sink.extra_stats.insert("plugin_passes__runs_plugins_forwarded_decoded".into(), json!(fx_tot.iter().map(|(k, v)| (k.clone(), vec![v.0, v.1, v.2, v.3])).collect::<std::collections::BTreeMap<_, _>>()));
     sink.extra_stats.insert("input_independent_large_requests".into(), json!(allow));
     sink.shard_size = 150;
